@@ -5,6 +5,7 @@ package world
 
 import (
 	"fmt"
+	"math/rand"
 	"net"
 	"sort"
 	"strings"
@@ -164,6 +165,10 @@ type World struct {
 	openConns    map[string]int               // caller -> open connections (leak monitor)
 
 	StmtLatency time.Duration
+	// Jitter > 0 adds 0..Jitter-1 extra latency quanta to every reply (seeded): the loops of one process, which the
+	// fixed latency keeps in a fixed lockstep pairing, then meet in varying pairings (race detector runs)
+	Jitter int
+	jrng   *rand.Rand
 
 	// Fault decides the fate of a statement. Called under the world mutex.
 	Fault func(c *StmtCtx) FaultAction
